@@ -45,6 +45,10 @@ fn decoys(t: &mut Tree, dirs: &[&str]) {
         tfile(t, &p("txtpp"), "decoy txtpp\n");
         tfile(t, &p(".txtpp"), "decoy dot\n");
         tfile(t, &p("a.txtpp.b.c"), "decoy three ext\n");
+        for stem in ["s", "a", "b", "ok", "top", "mid", "leaf", "e"] {
+            tfile(t, &p(&format!("{stem}.tmp")), "decoy with the stem of an output\n");
+            tfile(t, &p(&format!("{stem}.txt.tmp")), "decoy with the name of an output\n");
+        }
     }
     tfile(t, "sub/other.txt", "other\n");
 }
@@ -792,6 +796,9 @@ pub fn run_property(prop: &str, tier: &str) -> i32 {
     }
     if prop == "C08" {
         crate::crash::run_into(&rep);
+    }
+    if prop == "C10" && !rep.over_cap() {
+        crate::strace10::run_into(&rep);
     }
     rep.finish()
 }
